@@ -274,13 +274,13 @@ def miri_stage(prop, mode, cases_per_proc, nprocs=16):
         env["RUST_BACKTRACE"] = "0"
         t0 = time.time()
         # build once (an unknown property makes the worker exit at once)
-        b = subprocess.run(["cargo", "+nightly", "miri", "run", "--offline", "--quiet", "--", "C00"], cwd=cwd, env=env, stdout=subprocess.PIPE, stderr=subprocess.STDOUT, text=True)
+        b = subprocess.run(["cargo", "+nightly", "miri", "run", "--offline", "--quiet", "--target-dir", os.path.join(TARGET, "san"), "--", "C00"], cwd=cwd, env=env, stdout=subprocess.PIPE, stderr=subprocess.STDOUT, text=True)
         if "unknown property" not in b.stdout:
             return ("miri stage: build failed", [({}, None, "miri stage: the interpreter build failed (inconclusive): %s" % b.stdout[-400:])], {})
         cmds = []
         for i in range(nprocs):
             out = os.path.join(d, "miri-%d.json" % i)
-            cmds.append(["cargo", "+nightly", "miri", "run", "--offline", "--quiet", "--", prop, "--seed", str(seed * 100 + 3), "--shard", str(i), "--nshards", str(nprocs),
+            cmds.append(["cargo", "+nightly", "miri", "run", "--offline", "--quiet", "--target-dir", os.path.join(TARGET, "san"), "--", prop, "--seed", str(seed * 100 + 3), "--shard", str(i), "--nshards", str(nprocs),
                          "--cases", str(cases_per_proc), "--tier", tier, "--out", out] + (["--mode", mode] if mode else []))
         res_all = _run_parallel(cmds, {"env": env, "cwd": cwd}, d, 7200)
         results = []
